@@ -7,7 +7,9 @@ RULE = ('every *_in_background request in every active-blob state (active / none
         'sequences of up to 4 requests mixed with data operations and force_update with 4 predicates; then an overflow '
         'of the active blob past max_data_in_blob (writes separated by sleeps longer than the 200 ms debounce), a dump '
         'request, and close; checked: worker alive at every quiescence point, next_blob_id grows on overflow, close '
-        'returns; distinct by (multiset of (op, outcome class))')
+        'returns; spaced stream: dump requests (close / free_excess) each issued after the previous dump task finished with '
+        'the worker idle and no message in between (no quiescence probe): the index file of every closed blob must appear; '
+        'distinct by (multiset of (op, outcome class))')
 ASSUMPTIONS = ['real time only enters through the debounce interval: scripts sleep 250 ms before each overflow write; '
                'tokio task scheduling is not modelled']
 
@@ -30,12 +32,17 @@ def gen_script(rng):
         L += ['close_active', 'restore_active', 'close_active'] if rng.random() < 0.3 else ['close_active']
     elif state == 'active_closed':
         L += [w(), 'close_active', 'create_active']
+    L.append('counts')
+    first = True
     for _ in range(rng.randrange(1, 5)):
         x = rng.random()
+        if first and state.startswith('noactive') and rng.random() < 0.35:
+            x = 0.6      # a forced update while there is no active blob
+        first = False
         if x < 0.55:
             L.append(rng.choice(['bg_close', 'bg_create', 'bg_restore']))
         elif x < 0.7:
-            L.append('force_update %s' % rng.choice(['always', 'never', 'some', 'nonempty']))
+            L.append('force_update %s' % rng.choice(['always', 'always', 'never', 'some', 'nonempty']))
         elif x < 0.8:
             L.append('D %s 7 - %d' % (rng.choice(keys), rng.choice([0, 1])))
         elif x < 0.9:
@@ -59,9 +66,30 @@ def gen_script(rng):
     return '\n'.join(L) + '\n'
 
 
+def gen_spaced_script(rng):
+    """Dump requests spaced so that the previous dump task has FINISHED while the worker was idle (no message in
+    between, in particular no quiescence probe): every requested index dump must still complete. `nop dumped=i`
+    marks the points where the index file of blob i must exist in the listing that follows."""
+    L = ['cfg K=4 dup=1 group=%d bloom=none init=eager runtime=%s' % (rng.choice([2, 8]), rng.choice(['mt', 'ct'])), 'open', 'autoquiesce 0']
+    seed = 0
+    bid = 0
+    for rnd in range(rng.choice([2, 3, 4])):
+        for _ in range(rng.randrange(1, 3)):
+            seed += 1
+            L.append('W %s 5 - 5 %d' % ((seed % 3 + 1).to_bytes(4, 'big').hex(), seed))
+        how = rng.choice(['close_active', 'close_active', 'free_excess'])
+        if how == 'close_active':
+            L += ['close_active', 'sleep %d' % rng.choice([150, 300]), 'nop dumped=%d' % bid, 'ls', 'create_active']
+            bid += 1
+        else:
+            L += ['free_excess', 'sleep 150', 'ls']
+    L += ['autoquiesce 1', 'quiesce', 'counts', 'close']
+    return '\n'.join(L) + '\n'
+
+
 def gen(tier, rng):
     n = 96 if tier == 'quick' else 1500
-    return [('bg%05d' % i, gen_script(rng)) for i in range(n)]
+    return [('bg%05d' % i, gen_script(rng)) for i in range(n)] + [('spaced%05d' % i, gen_spaced_script(rng)) for i in range(n // 4)]
 
 
 def next_of(line):
@@ -79,17 +107,33 @@ def oracle(lines, io, spec=None):
     closed_present = None
     for i, (l, o) in enumerate(zip(lines, io)):
         t = l.split()[0]
+        if t == 'open' and o == 'open ok' and has_active is None:
+            # a fresh directory: eager init creates the active blob, lazy init leaves none
+            has_active = 'init=eager' in lines[0]
+            closed_present = False
         if t == 'counts' and o.startswith('counts'):
             kv = dict(x.split('=') for x in o.split()[1:])
             has_active = kv['has_active'] == '1'
+            det = [x for x in kv['detailed'].strip('[]').split(',') if x]
+            closed_present = len(det) - (1 if has_active else 0) > 0
+        if t in ('bg_close', 'bg_create', 'bg_restore') and has_active is not None:
+            inapplicable = (t == 'bg_create' and has_active) or (t == 'bg_close' and not has_active) or \
+                           (t == 'bg_restore' and (has_active or not closed_present))
+            bad_bg = bad_bg or inapplicable
+        if t.startswith('nop') and 'dumped=' in l and i + 1 < len(io) and lines[i + 1] == 'ls':
+            bid = l.split('dumped=')[1]
+            if ('t.%s.index:' % bid) not in io[i + 1]:
+                fails.append('line %d: the index dump requested by closing blob %s did not complete (worker idle, no error): %s' % (i, bid, io[i + 1][:200]))
         if t == 'quiesce' and o == 'quiesce dead':
-            fails.append('[F1] line %d: background maintenance worker is dead after `%s`' % (i, ' ; '.join(lines[max(0, i - 3):i])))
+            # F1 is the class "an INAPPLICABLE *_in_background request kills the worker"; a death without one is not it
+            tag = '[F1] ' if bad_bg else ''
+            fails.append('%sline %d: background maintenance worker is dead after `%s`' % (tag, i, ' ; '.join(lines[max(0, i - 3):i])))
             break
         if o.endswith('Timeout'):
             fails.append('line %d `%s`: operation did not return' % (i, l))
     # overflow must switch blobs: next_blob_id grows between the two `counts` around the overflow phase
     cs = [i for i, l in enumerate(lines) if l == 'counts']
-    if len(cs) >= 2 and not any(f.startswith('[F1]') for f in fails):
+    if len(cs) >= 2 and not any('worker is dead' in f for f in fails):
         a, b = cs[-2], cs[-1]
         if a < len(io) and b < len(io) and io[a].startswith('counts') and io[b].startswith('counts'):
             if next_of(io[b]) <= next_of(io[a]):
